@@ -258,3 +258,28 @@ pub fn log_str(log: &Log) -> String {
         .collect::<Vec<_>>()
         .join(",")
 }
+
+
+/// An `io::Write` that implements only `write` (so `write_vectored` is the default: first non-empty
+/// slice only) and accepts at most `max` bytes per call – a legal writer such as a pipe or an encoder.
+pub struct ShortWriter {
+    pub out: Vec<u8>,
+    pub max: usize,
+}
+
+impl ShortWriter {
+    pub fn new(max: usize) -> ShortWriter {
+        ShortWriter { out: vec![], max: max.max(1) }
+    }
+}
+
+impl std::io::Write for ShortWriter {
+    fn write(&mut self, buf: &[u8]) -> std::io::Result<usize> {
+        let n = buf.len().min(self.max);
+        self.out.extend_from_slice(&buf[..n]);
+        Ok(n)
+    }
+    fn flush(&mut self) -> std::io::Result<()> {
+        Ok(())
+    }
+}
